@@ -23,6 +23,16 @@ Theorem C09_fetch_needs_X : forall a s l s',
   exists ar, owner (mem s) a = Some ar /\ Z.land (a_access ar) PROT_EXEC <> 0 /\ s' = s.
 Proof. exact fetch_requires_X. Qed.
 
+(* the fetch window never leaves the owning (executable) area: the fetched bytes are that area's own
+   bytes from the address on, at most 15, ending with the area's data - bytes of a neighbouring area,
+   whatever its permissions, are never part of a fetched instruction *)
+Theorem C09_fetch_window : forall a s l s',
+  mem_read_executable_bytes a s = (Ok l, s') ->
+  exists ar, owner (mem s) a = Some ar /\ Z.land (a_access ar) PROT_EXEC <> 0 /\
+             l = slice (a_data ar) (a - a_start ar) (Z.min 15 (zlen (a_data ar) - (a - a_start ar))) /\
+             zlen l <= 15.
+Proof. exact fetch_window. Qed.
+
 (* and conversely the permission bit (with the range inside the area) is all that is needed *)
 Theorem C09_read_ok_iff : forall a n s, Inv (mem s) -> 0 <= n ->
   (exists l, mem_read_bytes a n s = (Ok l, s)) <-> accessible (mem s) a n PROT_READ.
@@ -69,3 +79,4 @@ Qed.
 Print Assumptions C09_write_needs_W.
 Print Assumptions C09_fetch_needs_X.
 Print Assumptions C09_new_code_not_writable.
+Print Assumptions C09_fetch_window.
